@@ -1491,8 +1491,14 @@ class JobTerminationMonitor(Monitor):
             for rec in self.pending_forced:
                 if ev['k'] != 'truth' or ev['namespec'] == rec['namespec']:
                     rec['overtaken'] = True
-        elif ev['k'] == 'hook' and ev['name'] == 'force_process_state':
-            pass
+        elif ev['k'] == 'hook' and ev['name'] in ('send_process_added_event', 'send_process_removed_event'):
+            # a process removed from / created on an instance at run time (numprocs, group): its entries are rewritten,
+            # a pending forced state of that process (or of its whole group) is overtaken like by an event
+            payload = (ev.get('args') or [{}])[0] or {}
+            for rec in self.pending_forced:
+                group, _, name = rec['namespec'].partition(':')
+                if payload.get('group') == group and payload.get('name') in (name, '*'):
+                    rec['overtaken'] = True
 
     def finish(self, run):
         # same bounded-progress clause, evaluated a last time at the end of the quiet period
